@@ -51,7 +51,7 @@ def main():
     rc, o = sh('git -C /repo apply %s' % patch)
     assert rc == 0, o
     try:
-        rc, o = sh('./check %s --tier quick' % prop, cwd='/verif', timeout=3000)
+        rc, o = sh('S3V_EVIDENCE_DIR=/tmp/s3v-seed-evidence ./check %s --tier quick' % prop, cwd='/verif', timeout=3000)
         out['check'] = {'exit': rc, 'lines': [l[:300] for l in o.strip().split('\n') if l.startswith('VIOLATION') or ' OK:' in l or ' FAIL:' in l]}
     finally:
         sh('git -C /repo checkout -- .')
